@@ -968,6 +968,46 @@ def eliminate_self_aliases(fn) -> int:
     return len(cands)
 
 
+def quantifiers_to_loops(stmts: List[ast.stmt]) -> List[ast.stmt]:
+    """if [A and] any(c for x in X): <body ending in return / raise>   ->   [if A:] for x in X: if c: <body>
+    (and `not all(c ...)` with the negated element): the quantifier and the explicit search loop are the same code.  Applied by
+    rules that recognise the loop form (on a copy of the function body), not globally - other rules read the quantifier as one test."""
+    stmts = list(stmts)
+    i = 0
+    while i < len(stmts):
+        st = stmts[i]
+        # if [A and] any(c for x in X): <body ending in return / raise>   ->   [if A:] for x in X: if c: <body>
+        # (and `not all(c ...)` with the negated element): the quantifier and the explicit search loop are the same code
+        if isinstance(st, ast.If) and not st.orelse and st.body and isinstance(st.body[-1], (ast.Return, ast.Raise)):
+            conj = st.test.values if isinstance(st.test, ast.BoolOp) and isinstance(st.test.op, ast.And) else [st.test]
+            last = conj[-1]
+            neg = False
+            while isinstance(last, ast.UnaryOp) and isinstance(last.op, ast.Not):
+                last, neg = last.operand, not neg
+            if isinstance(last, ast.Call) and isinstance(last.func, ast.Name) and last.func.id in ("any", "all") and len(last.args) == 1 and not last.keywords and \
+                    isinstance(last.args[0], (ast.GeneratorExp, ast.ListComp)) and ((last.func.id == "any") != neg) and \
+                    not any(isinstance(n_, (ast.Break, ast.Continue)) for s_ in st.body for n_ in _walk_stmts(s_)):
+                gen = last.args[0]
+                elt = gen.elt if last.func.id == "any" else ast.UnaryOp(op=ast.Not(), operand=gen.elt)
+                inner: List[ast.stmt] = [ast.If(test=elt, body=st.body, orelse=[])]
+                for g_ in reversed(gen.generators):
+                    for c_ in reversed(g_.ifs):
+                        inner = [ast.If(test=c_, body=inner, orelse=[])]
+                    inner = [ast.For(target=g_.target, iter=g_.iter, body=inner, orelse=[], lineno=st.lineno)]
+                for a_ in reversed(conj[:-1]):
+                    inner = [ast.If(test=a_, body=inner, orelse=[])]
+                for n_ in inner:
+                    ast.copy_location(n_, st)
+                    ast.fix_missing_locations(n_)
+                stmts[i:i + 1] = inner
+                continue
+        for fld in ("body", "orelse", "finalbody"):
+            if isinstance(getattr(st, fld, None), list) and not isinstance(st, (ast.FunctionDef, ast.AsyncFunctionDef, ast.ClassDef)):
+                setattr(st, fld, quantifiers_to_loops(getattr(st, fld)))
+        i += 1
+    return stmts
+
+
 def structure_statements(stmts: List[ast.stmt]) -> List[ast.stmt]:
     """Statement-level canonical structure (semantics preserving):
        flag = <boolean expression>;  x = A if flag else B      ->   the test is written where it is used, when nothing in
